@@ -710,11 +710,13 @@ func (s *Service) Shutdown() error {
 		return errNotStarted
 	}
 
+	verifPoint("shutdown.cas", nil)
 	s.infof("Stopping service...")
 	s.close()
 
 	// Wait for all workers to be done
 	s.wg.Wait()
+	verifPoint("shutdown.drained", nil)
 
 	s.inCh = nil
 	s.nc = nil
@@ -722,18 +724,23 @@ func (s *Service) Shutdown() error {
 	atomic.StoreInt32(&s.state, stateStopped)
 
 	s.infof("Stopped")
+	verifPoint("shutdown.done", nil)
 	return nil
 }
 
 // close calls Close on the NATS connection, and closes the incoming channel
 func (s *Service) close() {
+	verifPoint("close.enter", nil)
 	s.mu.Lock()
 	s.workqueue = nil
 	s.mu.Unlock()
+	verifPoint("close.beforeBroadcast", nil)
 	s.workcond.Broadcast()
+	verifPoint("close.afterBroadcast", nil)
 
 	s.nc.Close()
 	close(s.inCh)
+	verifPoint("close.done", nil)
 }
 
 // Reset sends a system reset for the provided resource patterns.
@@ -927,6 +934,8 @@ func (s *Service) startListener(ch chan *nats.Msg) {
 
 // handleRequest is called by the nats listener on incoming messages.
 func (s *Service) handleRequest(m *nats.Msg) {
+	verifPoint("listener.msg", m)
+	defer verifPoint("listener.msgDone", m)
 	subj := m.Subject
 	s.tracef("==> %s: %s", subj, m.Data)
 
@@ -967,6 +976,7 @@ func (s *Service) handleRequest(m *nats.Msg) {
 
 	s.runWith(group, func() {
 		s.processRequest(m, rtype, rname, method, mh)
+		verifPoint("request.done", m)
 	})
 }
 
@@ -976,6 +986,7 @@ func (s *Service) runWith(wid string, cb func()) {
 	if atomic.LoadInt32(&s.state) != stateStarted {
 		return
 	}
+	verifPoint("runWith.checked", wid)
 
 	s.mu.Lock()
 	// Get current work queue for the resource
@@ -997,6 +1008,7 @@ func (s *Service) runWith(wid string, cb func()) {
 		}
 		s.workqueue = append(s.workqueue, w)
 		s.mu.Unlock()
+		verifPoint("runWith.beforeSignal", wid)
 		s.workcond.Signal()
 	} else {
 		// Append callback to existing work queue
@@ -1070,6 +1082,7 @@ func (s *Service) event(subj string, data interface{}) {
 	payload, err := json.Marshal(data)
 	if err == nil {
 		s.tracef("<-- %s: %s", subj, payload)
+		verifPoint("publish.before", subj)
 		err = s.nc.Publish(subj, payload)
 	}
 	if err != nil {
@@ -1081,6 +1094,7 @@ func (s *Service) event(subj string, data interface{}) {
 // event.
 func (s *Service) rawEvent(subj string, payload []byte) {
 	s.tracef("<-- %s: %s", subj, payload)
+	verifPoint("publish.before", subj)
 	err := s.nc.Publish(subj, payload)
 	if err != nil {
 		s.errorf("Error sending event %s: %s", subj, err)
@@ -1180,7 +1194,9 @@ func (s *Service) processRequest(m *nats.Msg, rtype, rname, method string, mh *M
 
 func (s *Service) queryEventExpire(v interface{}) {
 	qe := v.(*queryEvent)
+	verifPoint("qexpire.enter", qe.r.rname)
 	qe.sub.Drain()
+	verifPoint("qexpire.drained", qe.r.rname)
 	s.runWith(qe.r.Group(), func() {
 		qe.cb(nil)
 	})
